@@ -173,6 +173,22 @@ def check_pair(case) -> Info:
     return Info(nontrivial=diff <= 1, classes=(f"diff:{min(diff, 3)}",))
 
 
+def _carry_pair(g, i, lows, delta):
+    a, b = list(g), list(g)
+    hi = g[i] if g[i] is not None else 7
+    hi2 = hi + delta
+    if not 0 <= hi2 <= 255:
+        hi2 = hi - delta
+    lo_a, lo_b = lows
+    a[i], a[i + 1] = hi, lo_a
+    b[i], b[i + 1] = hi2, lo_b
+    for t in (a, b):  # C and D are mandatory
+        for k in (2, 3):
+            if t[k] is None:
+                t[k] = 0
+    return (tuple(a), tuple(b))
+
+
 def _pair():
     return st.one_of(
         st.tuples(groups_st, groups_st),
@@ -180,6 +196,8 @@ def _pair():
         groups_st.flatmap(
             lambda g: st.tuples(st.just(g), st.builds(lambda i, v: tuple(v if (k == i and (v is not None or k not in (2, 3))) else x for k, x in enumerate(g)), st.integers(0, 5), _opt))
         ),
+        # two ADJACENT positions related by a carry: (.., g, None) vs (.., g+1, 0) and (.., g, 255) vs (.., g+1, None) etc.
+        st.builds(_carry_pair, groups_st, st.integers(0, 4), st.sampled_from([(None, 0), (255, None), (255, 0), (None, 1), (0, None)]), st.sampled_from([1, -1])),
     )
 
 
@@ -268,6 +286,24 @@ def _repair(tokens_and_filler):
         s = s[: m.start() + 2] + filler + s[m.start() + 2 :]
 
 
+@st.composite
+def decorated_st(draw):
+    """A well-formed code with blanks / signs / underscores next to its separators so that no digit-dot-digit remains."""
+    g = draw(groups_st)
+    text = fmt_six(tuple(x if x is not None else draw(_val) for x in g)) if draw(st.integers(0, 4)) == 4 else fmt_reduced(g)
+    out = []
+    for ch in text:
+        if ch == ".":
+            pre = draw(st.sampled_from(["", " ", "\t", "_"]))
+            post = draw(st.sampled_from([" ", "+", "_", "\t", " +", "-"]) if not pre else st.sampled_from(["", " ", "+", "_"]))
+            out.append(pre + "." + post)
+        elif ch in "-:*" and draw(st.booleans()):
+            out.append(draw(st.sampled_from([" ", ""])) + ch + draw(st.sampled_from([" ", "+", ""])))
+        else:
+            out.append(ch)
+    return _repair((out, " "))
+
+
 malformed_st = st.tuples(st.lists(_tok, min_size=0, max_size=8), st.sampled_from([" ", "x", "-", ":", "*", ".", ","])).map(_repair)
 
 
@@ -309,7 +345,7 @@ def build() -> Check:
             EnumClause("grid", size=lambda tier: _GRID_TOTAL, case_at=grid_case, oracle=check_groups, doc="exhaustive boundary grid, all presence patterns"),
             HypClause("groups", st.tuples(groups_st, st.sampled_from([0, 0, 2, 3])), check_groups, quick=20000, thorough=300000),
             HypClause("pairs", _pair, check_pair, quick=20000, thorough=200000),
-            HypClause("malformed", malformed_st, check_malformed, quick=20000, thorough=300000),
+            HypClause("malformed", st.one_of(malformed_st, decorated_st()), check_malformed, quick=20000, thorough=300000),
             HypClause("object-histories", history_st, lambda ops: check_history([tuple(o) for o in ops]), quick=8000, thorough=150000, doc="equality/hash invariants over objects created, parsed, derived (filter_group_cde), copied and hashed in any order"),
         ],
     )
